@@ -298,6 +298,11 @@ def run_model(case, which, force):
 
 # ----------------------------------------------------------------------------------------------------------------------
 
+def _attr_sig(name):
+    import re
+    return re.sub(r"^tree\d+", "tree", name.split("[")[0])
+
+
 def inputs_of(calls):
     out = []
     for c in calls:
@@ -347,7 +352,7 @@ def check_pair(ctx, case):
             break
     for name in rel1:
         if name not in rel2 or bits(rel1[name]) != bits(rel2[name]):
-            ctx.violation(f"C06:{entry}:data-leak:{name.split('[')[0].rstrip('0123456789') if name.startswith('tree') else name}",
+            ctx.violation(f"C06:{entry}:data-leak:{_attr_sig(name)}",
                           f"{entry}: released `{name}` differs between two same-shape datasets under identical forced "
                           f"mechanism outputs: {first_diff(rel1[name], rel2.get(name, np.zeros(0)))}",
                           dict(data, attribute=name, release_D1=np.asarray(rel1[name]).tolist(),
